@@ -24,8 +24,12 @@ SCRIPT = [("open", 1), ("write", 1), ("write", 1), ("open", 2), ("write", 2), ("
 class L4Run:
     """one C10 execution: records flow from side `a` to the other side"""
 
-    def __init__(self, a, seed, real=False):
+    def __init__(self, a, seed, real=False, late_listen=None):
         self.a, self.b = a, ("F" if a == "L" else "L")
+        # late_listen = n: the receiving application registers its listener only after n steps (or at the end): whatever
+        # arrived for its subchannels before is held and handed over then - per subchannel still open, data, close in order
+        self.late_listen = late_listen
+        self.listening = late_listen is None
         if real:
             from ..dilreal import RealLinkWorld
             self.w = RealLinkWorld()
@@ -33,7 +37,8 @@ class L4Run:
             self.w = DilMidWorld()
         self.real = real
         self.w.connect()
-        self.w.listen(self.b, "p")
+        if self.listening:
+            self.w.listen(self.b, "p")
         self.w.pump()
         self.protos = {}
         self.issued = []
@@ -97,10 +102,22 @@ class L4Run:
         elif a == "SelectB":
             w.select(self.b)
         w.settle()
+        if not self.listening and len(self.schedule) >= self.late_listen:
+            self._listen_now()
+
+    def _listen_now(self):
+        self.listening = True
+        try:
+            self.w.listen(self.b, "p")
+        except Exception as e:
+            self.errors.append("listen: " + repr(e)[:100])
+        self.w.settle()
 
     def run_out(self):
         """after the last step of a witness: observe losses, reconnect if needed, select, deliver everything"""
         w = self.w
+        if not self.listening:
+            self._listen_now()
         if not w.up:
             w.observe_loss(self.a)
             w.observe_loss(self.b)
@@ -155,8 +172,25 @@ class L4Run:
                 return k
         return -2
 
+    def per_sub(self):
+        """issued and delivered operation indexes grouped by subchannel (the order the statement promises when the
+        listener came late: per subchannel)"""
+        def group(ops):
+            g = {}
+            for k in ops:
+                if 0 <= k < len(SCRIPT):
+                    g.setdefault(SCRIPT[k][1], []).append(k)
+                else:
+                    g.setdefault(0, []).append(k)
+            return g
+        gi, gd = group(self.issued), group(self.delivered())
+        scs = sorted(set(gi) | set(gd))
+        return {"issued": [gi.get(sc, []) for sc in scs], "delivered": [gd.get(sc, []) for sc in scs]}
+
     def finish(self, tid):
         w = self.w
+        if not self.listening:
+            self._listen_now()
         quiet = w.up and all(s.conn is not None and s.conn.alive for s in w.sides.values())
         if quiet:
             if not self.real:
@@ -169,7 +203,8 @@ class L4Run:
             w.pump()
         rec = {"tid": tid, "kind": "l4", "issued": list(self.issued), "delivered": self.delivered(), "goal": bool(quiet),
                "internal": [repr(e)[:120] for e in w.logged] + self.errors + [repr(e)[:100] for s in w.sides.values() for e in s.errors],
-               "ends": {}, "pendingUnexpected": 0, "scids": {"L": [], "F": []}, "afterCloseOK": True}
+               "ends": {}, "pendingUnexpected": 0, "scids": {"L": [], "F": []}, "afterCloseOK": True,
+               "lateListen": self.late_listen is not None, "perSub": self.per_sub()}
         w.close()
         return rec
 
@@ -202,6 +237,7 @@ class SubRun:
         self.calls = {}       # (id, end) -> [[write|close, ok|err]] in call order
         self.closes_sent = {}  # (id, end) -> CLOSE records the Manager was asked to send
         self.scids = {"L": [], "F": []}
+        self.open_failures = []
         self.eager = {}       # id -> application calls its opener makes from inside connectionMade()
         self.skip = []        # ... which are then skipped when the behaviour reaches them
         for sname, side in self.w.sides.items():
@@ -235,8 +271,12 @@ class SubRun:
             w.on_made = made if eager else None
             p = w.open(x, self.spell(self._name_of_id.get(y, "a")), half=self.half)
             w.on_made = None
-            self.openers[y] = p
-            self.scids[x].append(getattr(getattr(p, "transport", None), "_scid", None))
+            if not hasattr(p, "log"):
+                # connect() did not produce a connected protocol (its Deferred failed or has not fired)
+                self.open_failures.append("open %s by %s: %r" % (y, x, getattr(p, "value", p)))
+            else:
+                self.openers[y] = p
+                self.scids[x].append(getattr(getattr(p, "transport", None), "_scid", None))
         elif a == "AppListen":
             w.listen(x, self.spell(self._listen_name), half=self.half)
         elif a in ("AppWrite", "AppClose"):
@@ -379,7 +419,7 @@ def finish_sub(run, tid, expected):
     rec = {"tid": tid, "kind": "sub", "issued": [], "delivered": [], "goal": False,
            "internal": [repr(e)[:120] for e in w.logged if type(e).__name__ not in
                         ("DataForMissingSubchannelError", "CloseForMissingSubchannelError", "DuplicateOpenError")] +
-                       [repr(e)[:100] for s in w.sides.values() for e in s.errors],
+                       [repr(e)[:100] for s in w.sides.values() for e in s.errors] + [x[:120] for x in run.open_failures],
            "ends": ends, "pendingUnexpected": held, "scids": {k: [x for x in v if x is not None] for k, v in run.scids.items()},
            "afterCloseOK": after_close_ok}
     w.close()
@@ -398,6 +438,11 @@ SUB_CONFIGS = {
     "expected_nothing": (dict(Names={"a"}, Expected=EXP0, MaxOpens=1, MaxWrites=1, Half=False, Openers={"L"}), {"F": []}, False),
     "half": (dict(Names={"a"}, Expected=UNSET, MaxOpens=1, MaxWrites=1, Half=True, Openers={"L"}), None, True),
     "both_open": (dict(Names={"a"}, Expected=UNSET, MaxOpens=1, MaxWrites=1, Half=False, Openers={"L", "F"}), None, False),
+}
+# too large for an exhaustive run: TLC simulates them (behaviours for the real code; the invariants are checked along the way)
+SUB_SIM_ONLY = {
+    "several_each": (dict(Names={"a"}, Expected=UNSET, MaxOpens=2, MaxWrites=1, Half=False, Openers={"L", "F"}), None, False),
+    "several_each_named": (dict(Names={"a", "u"}, Expected=EXPF, MaxOpens=3, MaxWrites=0, Half=False, Openers={"L", "F"}), {"F": ["a"]}, False),
 }
 
 
@@ -487,7 +532,10 @@ def run(prop, tier):
             for tr, win, origin in behaviours:
                 for a in (("L",) if win else ("L", "F")):
                     tid += 1
-                    run_ = L4Run(a, seed + tid, real=win)
+                    late = None
+                    if tid % 3 == 0:
+                        late = [0, len(tr) // 2, len(tr) + 5][(tid // 3) % 3]
+                    run_ = L4Run(a, seed + tid, real=win, late_listen=late)
                     drift = None
                     for i, st in enumerate(tr[1:], start=1):
                         try:
@@ -495,7 +543,7 @@ def run(prop, tier):
                         except Exception as e:
                             drift = {"step": i, "action": st["last"], "diff": ["cannot apply: %r" % (e,)]}
                             break
-                        if run_.delivered() != model_l4_delivered(st):
+                        if late is None and run_.delivered() != model_l4_delivered(st):
                             drift = {"step": i, "action": st["last"], "diff": ["delivered: spec=%s real=%s" % (st["delivered"], run_.delivered())]}
                             break
                     if origin.startswith("tlc-witness") and drift is None:
@@ -503,29 +551,32 @@ def run(prop, tier):
                     rec = run_.finish(tid)
                     rec["origin"] = origin
                     records.append(rec)
-                    meta[tid] = {"schedule": run_.schedule, "direction": a, "real_l2": win}
+                    meta[tid] = {"schedule": run_.schedule, "direction": a, "real_l2": win, "late_listen": late}
                     if drift:
                         ndrift += 1
                         if len(cov["drift"]) < 6:
                             cov["drift"].append(dict(drift, tid=tid))
         else:
-            for name, (consts, expected, half) in SUB_CONFIGS.items():
+            for name, (consts, expected, half) in list(SUB_CONFIGS.items()) + list(SUB_SIM_ONLY.items()):
                 m = "MC_C13_" + name
                 common.write_model(wd, m, "DilationSub", consts, invariants=SUB_INV)
-                r = tlc.run(m + ".tla", m + ".cfg", cwd=wd.path, timeout=1800)
-                cov["tlc_configs"][name] = {"distinct_states": r.distinct, "states_generated": r.generated, "depth": r.depth,
-                                            "wall_s": round(r.wall, 1), "result": "ok" if r.ok else (r.violated or "error")}
-                states += r.distinct
-                transitions += r.generated
                 behaviours = []
-                if r.violated:
-                    behaviours.append(r.trace)
-                elif not r.ok:
-                    raise RuntimeError("TLC failed on %s: %s" % (m, r.error or r.stdout[-1500:]))
+                if name in SUB_CONFIGS:
+                    r = tlc.run(m + ".tla", m + ".cfg", cwd=wd.path, timeout=1800)
+                    cov["tlc_configs"][name] = {"distinct_states": r.distinct, "states_generated": r.generated, "depth": r.depth,
+                                                "wall_s": round(r.wall, 1), "result": "ok" if r.ok else (r.violated or "error")}
+                    states += r.distinct
+                    transitions += r.generated
+                    if r.violated:
+                        behaviours.append(r.trace)
+                    elif not r.ok:
+                        raise RuntimeError("TLC failed on %s: %s" % (m, r.error or r.stdout[-1500:]))
                 simdir = wd.file("sim_" + name)
                 os.makedirs(simdir)
-                tlc.run(m + ".tla", m + ".cfg", cwd=wd.path, workers=4, simulate={"num": (60 if quick else 600) // 4, "file": os.path.join(simdir, "tr")},
-                        depth=30, seed=seed + 13, timeout=900)
+                rs = tlc.run(m + ".tla", m + ".cfg", cwd=wd.path, workers=4, simulate={"num": (60 if quick else 600) // 4, "file": os.path.join(simdir, "tr")},
+                             depth=30 if name in SUB_CONFIGS else 45, seed=seed + 13, timeout=900)
+                if name in SUB_SIM_ONLY:
+                    cov["tlc_configs"][name] = {"mode": "simulation only", "result": "ok" if not rs.violated else rs.violated, "wall_s": round(rs.wall, 1)}
                 behaviours += list(tlc.read_sim_traces(os.path.join(simdir, "tr")))
                 for tr in behaviours:
                     tid += 1
